@@ -625,6 +625,27 @@ pub fn random_step(w: &mut World, sc: &Scenario, rec: &mut Recorder) {
             rec.tick_clock(w, dt);
         }
         _ => {
+            // closing: as is, or after withdrawing everything and collecting only the fees / only the rewards / both
+            // (a position is closed only when nothing at all is left in it)
+            let variant = w.rng.gen_range(0..4);
+            if variant > 0 {
+                if let Some((l, _, _)) = w.pos_range(&p) {
+                    if l > 0 {
+                        let ix = w.ix_decrease(&p, &owner, l, 0, 0, v2);
+                        rec.exec(w, &ix, false, json!(null));
+                    }
+                }
+                if variant != 2 {
+                    let ix = w.ix_collect_fees(&p, &owner, v2);
+                    rec.exec(w, &ix, false, json!(null));
+                }
+                if variant != 1 {
+                    for i in 0..w.pools[&pool].rewards.len() as u8 {
+                        let ix = w.ix_collect_reward(&p, &owner, i, v2);
+                        rec.exec(w, &ix, false, json!(null));
+                    }
+                }
+            }
             let ix = w.ix_close_position(&p, &owner);
             rec.exec(w, &ix, false, json!(null));
         }
